@@ -333,8 +333,12 @@ impl Tree {
         let free = self.free() + free;
         assert!(free <= TREE_FRAMES, "{free}");
 
-        // Check if transition is allowed by policy
-        if free == TREE_FRAMES && policy(self.class(), default, free) != Policy::Invalid {
+        // Check if transition is allowed by policy.
+        // A reserved tree keeps the class of the local slot that owns it.
+        if free == TREE_FRAMES
+            && !self.reserved()
+            && policy(self.class(), default, free) != Policy::Invalid
+        {
             self.set_class(default);
         }
         self.with_free(free)
